@@ -387,15 +387,11 @@ func (cc *CheckCtx) replay(fr *FuncRun, r *ObResult) {
 	fn := fr.Ex.fn
 	pkgName := fn.Pkg.Pkg.Name()
 	// concrete inputs
-	var setup []string
-	var callArgs []string
 	conc := map[string]*concreteIn{}
-	for i, p := range fn.Params {
+	for _, p := range fn.Params {
 		t := p.Type()
-		isPtr := false
 		if pt, ok := t.Underlying().(*types.Pointer); ok {
 			t = pt.Elem()
-			isPtr = true
 		}
 		c, ok := concretize(vals, p.Name(), t, pkgName)
 		if !ok {
@@ -403,6 +399,65 @@ func (cc *CheckCtx) replay(fr *FuncRun, r *ObResult) {
 			return
 		}
 		conc[p.Name()] = c
+	}
+	cc.replayWith(fr, conc, info)
+}
+
+// replayInstance replays a failing case-split instance (a concrete receiver object).
+func (cc *CheckCtx) replayInstance(fr *FuncRun, in CaseInst, r *ObResult) {
+	defer func() {
+		if rec := recover(); rec != nil {
+			r.Replay = &ReplayInfo{Note: fmt.Sprintf("replay not possible: %v", rec)}
+		}
+	}()
+	info := &ReplayInfo{Inputs: map[string]interface{}{"instance": in.Label}}
+	r.Replay = info
+	fn := fr.Ex.fn
+	vals := map[string]string{}
+	for _, p := range fn.Params {
+		v := fr.Params[p.Name()]
+		if pv, ok := v.(*PtrV); ok {
+			v = fr.Entry.mem[pv.A]
+		}
+		sv, ok := v.(*StructV)
+		if !ok {
+			info.Note = "instance replay supports receiver-only functions"
+			return
+		}
+		for i, f := range sv.Fields {
+			t, _ := f.(*Term)
+			c, ok := in.Sub[t]
+			if !ok || c.Op != "bv" {
+				info.Note = "instance does not fix the whole receiver"
+				return
+			}
+			vals[p.Name()+"."+sv.T.Field(i).Name()] = fmt.Sprintf("#x%02x", c.IV.Uint64())
+		}
+	}
+	conc := map[string]*concreteIn{}
+	for _, p := range fn.Params {
+		t := p.Type()
+		if pt, ok := t.Underlying().(*types.Pointer); ok {
+			t = pt.Elem()
+		}
+		c, ok := concretize(vals, p.Name(), t, fn.Pkg.Pkg.Name())
+		if !ok {
+			info.Note = "cannot build the instance object"
+			return
+		}
+		conc[p.Name()] = c
+	}
+	cc.replayWith(fr, conc, info)
+}
+
+func (cc *CheckCtx) replayWith(fr *FuncRun, conc map[string]*concreteIn, info *ReplayInfo) {
+	fn := fr.Ex.fn
+	pkgName := fn.Pkg.Pkg.Name()
+	var setup []string
+	var callArgs []string
+	for i, p := range fn.Params {
+		_, isPtr := p.Type().Underlying().(*types.Pointer)
+		c := conc[p.Name()]
 		info.Inputs[p.Name()] = c.shown
 		vn := fmt.Sprintf("in%d", i)
 		setup = append(setup, fmt.Sprintf("%s := %s", vn, c.goExpr))
@@ -691,7 +746,7 @@ func (cc *CheckCtx) evalClausesConcrete(fr *FuncRun, conc map[string]*concreteIn
 	}
 	ctx := &Ctx{ex: ex, fn: fn, fc: fc, st: post, old: pre, params: params, results: results, pc: True}
 	anyFalse := false
-	for _, d := range fc.Of("ensures") {
+	for _, d := range append(fc.Of("ensures"), fc.Of("oracle")...) {
 		var t *Term
 		func() {
 			defer func() {
